@@ -551,7 +551,7 @@ func New(o Options) (*Cluster, error) {
 		url := "127.0.0.1:" + strconv.Itoa(vp)
 		vs := weed_server.NewVolumeServer(vmux, vmux, "127.0.0.1", vp, url, []string{dir}, []int{100},
 			[]util.MinFreeSpace{{}}, []types.DiskType{types.HardDriveType}, "", storage.NeedleMapInMemory,
-			[]string{c.MasterAddr}, 1, "dc1", fmt.Sprintf("r%d", i), nil, false, "proxy", 0, o.FileSizeLimitMB, 0)
+			[]string{c.MasterAddr}, 1, "dc1", fmt.Sprintf("r%d", i), nil, false, "local", 0, o.FileSizeLimitMB, 0)
 		ServeHttp(vp, vmux)
 		ServeGrpc(vp+10000, func(s *grpc.Server) { volume_server_pb.RegisterVolumeServerServer(s, vs) })
 		c.Volumes = append(c.Volumes, &VolumeNode{Url: url, Port: vp, Dir: dir, Server: vs})
